@@ -97,6 +97,25 @@ func (lg *locGen) fuzzOp() []interface{} {
 	loc := lg.locs[r.Intn(len(lg.locs))]
 	id := lg.ids[r.Intn(len(lg.ids))]
 	o := map[string]interface{}{"loc": loc}
+	if r.Intn(12) == 0 {
+		// a SCHEDULED rule (AddFact does not validate: it may have a `when` too) whose `when` the rule
+		// index cannot sort: it is not in the index, so it can be stored, replaced and removed like
+		// anything else (D66: the indexed state used to look for it in the index when it left, failed
+		// with "... is not sortable" and kept the rule for good)
+		stuck := func() map[string]interface{} {
+			return map[string]interface{}{"rule": map[string]interface{}{
+				"schedule": "+1h",
+				"when":     map[string]interface{}{"pattern": map[string]interface{}{"a": []interface{}{map[string]interface{}{}, map[string]interface{}{}}}},
+				"action":   map[string]interface{}{"code": "1"}}}
+		}
+		ops := []interface{}{map[string]interface{}{"loc": loc, "op": "addfact", "id": id, "fact": stuck()}}
+		if r.Intn(2) == 0 {
+			ops = append(ops, map[string]interface{}{"loc": loc, "op": "addfact", "id": id, "fact": stuck()}) // replaced by itself
+		}
+		return append(ops,
+			map[string]interface{}{"loc": loc, "op": "remfact", "id": id},
+			map[string]interface{}{"loc": loc, "op": "getfact", "id": id})
+	}
 	switch r.Intn(9) {
 	case 0, 1:
 		o["op"], o["id"], o["fact"] = "addfact", id, lg.fuzzFact()
